@@ -50,6 +50,31 @@ def leave_cases(tier):
                             yield {"loop": loop, "locks": ["prio"] * (depth + 2), "conds": [], "events": 1, "acts": acts}
 
 
+def late_wait_cases(tier):
+    """a task that ALREADY inherits priority when it begins to wait: W1 holds L1 and sleeps; the urgent X queues
+    on L1 (W1 inherits); only then W1 goes on to acquire L0 (held by H), where W2 is queued before or after it;
+    H releases.  The entry W1 files must carry its effective, not its own, priority."""
+    sect = c11.sect
+    for loop in ("stock", "prio"):
+        for (pw1, pw2, px) in ((5, 3, -5), (5, 3, 1), (3, 3, -5), (5, 4, 4), (2, 5, -5), (5, 0, -1)):
+            for k in (1, 2):
+                for w2_first in (True, False):
+                    h = sect(0, ["do", ["eventwait", 0], ["end"]])
+                    w1 = sect(1, _sleeps(k, sect(0, _sleeps(1, ["end"]))))
+                    w2 = sect(0, _sleeps(1, ["end"]))
+                    x = sect(1, _sleeps(1, ["end"]))
+                    acts = [["spawn", ["prio", [7, 1]], h], ["step"],
+                            ["spawn", ["prio", [pw1, 1]], w1], ["step"],
+                            ["spawn", ["prio", [px, 1]], x], ["step"]]
+                    if w2_first:
+                        acts += [["spawn", ["prio", [pw2, 1]], w2], ["step"]]
+                    acts += [["step"]] * (k + 1)
+                    if not w2_first:
+                        acts += [["spawn", ["prio", [pw2, 1]], w2], ["step"]]
+                    acts += [["step"]] * 2 + [["do", ["eventset", 0]]] + [["step"]] * 24
+                    yield {"loop": loop, "locks": ["prio", "prio"], "conds": [], "events": 1, "acts": acts}
+
+
 def gen_leaving(rng):
     """the C11 generator with cancellations of arbitrary tasks sprinkled in"""
     c = c11.gen_case(rng, loops=("stock", "prio"))
@@ -68,6 +93,7 @@ def gen(rng, tier):
     yield from c11.chain_cases(tier)
     yield from c11.window_cases(tier)
     yield from leave_cases(tier)
+    yield from late_wait_cases(tier)
     for _ in range(350 if tier == "quick" else 2000):
         yield c11.gen_case(rng, loops=("stock", "prio"))
     for _ in range(150 if tier == "quick" else 800):
@@ -124,7 +150,7 @@ PROP = Prop(
     streams=[make_stream("handover", gen, oracle)],
     rule="the C11 generator (lock chains of length 1..4 with all priority pairs of late waiters; random programs with "
          "2..6 contenders, ties, ints/floats/Priority enum members, plain tasks, urgent late arrivals that raise a "
-         "queued waiter's priority by inheritance; waiters that leave by cancellation / task_throw while a queued "
+         "queued waiter's priority by inheritance; a task that already inherits priority when it begins to wait (all orders); waiters that leave by cancellation / task_throw while a queued "
          "lock-holder inherits from them, at every depth of a lock chain) on the stock and the priority loop; every hand-over (a waiter's "
          "future going from pending to result) is judged; non-trivial: >=4 actions of >=3 kinds",
     assumptions=["live waiter = entry future pending and its task still blocked on it; effective priorities are read "
